@@ -109,6 +109,36 @@ theorem inv_assign (b : TB) (vs : List Offered) (boom : Option Nat) (h : Inv b) 
     | track id f => simp at hm; subst hm; simpa [TB.accepts] using this
   · exact h
 
+/-- what a block offers when its own tracks are handed back to it -/
+def own (b : TB) : List Offered := b.tracks.map (fun t => .track t.1 t.2)
+
+theorem tracksOf_own (ts : List (Nat × Nat)) : tracksOf (ts.map (fun t => Offered.track t.1 t.2)) = ts := by
+  induction ts with
+  | nil => rfl
+  | cons t ts ih => simp [tracksOf, List.filterMap_cons] at ih ⊢; exact ih
+
+/-- ASSIGNING A BLOCK ITS OWN TRACKS BACK — its list object, a lazy view of it, any re-ordering `p` of it —
+    installs exactly those tracks: the new value is read before anything happens to the old container -/
+theorem assign_own_tracks (b : TB) (h : Inv b) : b.assign (own b) none = (b, false) := by
+  rw [assign_all_or_nothing]
+  have hall : (own b).all b.accepts = true := by
+    simp only [own, List.all_map, List.all_eq_true]
+    intro t ht
+    simp [TB.accepts, h t ht]
+  have hall' : (List.map (fun t => Offered.track t.fst t.snd) b.tracks).all b.accepts = true := hall
+  simp only [Option.isNone_none, own, hall', and_self, if_true, tracksOf_own]
+
+theorem assign_own_tracks_reordered (b : TB) (h : Inv b) (ts : List (Nat × Nat)) (hp : ∀ t ∈ ts, t ∈ b.tracks) :
+    b.assign (ts.map (fun t => .track t.1 t.2)) none = ({ b with tracks := ts }, false) := by
+  rw [assign_all_or_nothing]
+  have hall : (ts.map (fun t => Offered.track t.1 t.2)).all b.accepts = true := by
+    simp only [List.all_map, List.all_eq_true]
+    intro t ht
+    simp [TB.accepts, h t (hp t ht)]
+  simp only [Option.isNone_none, hall, and_self, if_true, tracksOf_own]
+
+example : (TB.mk 5 [(1, 5), (2, 5)]).assign (own (TB.mk 5 [(1, 5), (2, 5)])) none = (TB.mk 5 [(1, 5), (2, 5)], false) := by decide
+
 inductive Call where
   | add (o : Offered)
   | assign (vs : List Offered) (boom : Option Nat)
